@@ -29,6 +29,7 @@ type vzDisk struct {
 	writes               int                 // completed writes, all stores
 	commits              map[uint64][]string // every hash ever saved as committed, per height, in order
 	commitCH             map[uint64]tmconsensus.CommittedHeader
+	enteredRound         map[uint64]uint32 // highest round the state machine has entered per height, across incarnations (oracle bookkeeping)
 	commitDigest         map[uint64]string // what was saved, as a value (hash, proof round, signer key ids and signatures per target)
 	nhr                  [][4]uint64       // every network height/round ever set
 	fins                 map[uint64]string // finalization saved per height (hash|apphash|valhash)
